@@ -434,7 +434,7 @@ def _bigdup(R, only, tier="quick"):
     R.add("states")
     R.add("traces")
     wd = scratch.sub(f"c13big_{os.getpid()}")
-    for at in ((999999, 1000000, 500, 999998) if tier == "thorough" else (1000000, 500)):
+    for at in ((999999, 1000000, 500, 999998) if tier == "thorough" else (999999, 500)):   # copies at sorted rows 999,999 and 1,000,000 (either side of the boundary); control
         inner = {"duplicate_of_sorted_row": at}
         if only is not None and only != inner:
             continue
